@@ -19,6 +19,11 @@ let gen_data kind seed n : z list =
       | 0 -> x := (!x * 1664525 + 1013904223) land m32; (!x lsr 24) land 255
       | 1 -> let p = 37 + seed mod 11 in (97 + (i mod p) mod 26 + (i / p) mod 3) land 255
       | 2 -> seed land 255
+      | 4 | 5 ->
+        let tail = 40 + seed mod 300 in
+        if kind = 4 && i >= n - tail then 0
+        else if kind = 5 && i >= n - tail && i < n - tail + 24 && n > 2 * tail then Char.code (Bytes.get b (i - (n - tail)))
+        else begin x := (!x * 1664525 + 1013904223) land m32; (!x lsr 24) land 255 end
       | _ -> if (i / 1000) mod 2 = 0 then begin x := (!x * 1664525 + 1013904223) land m32; (!x lsr 24) land 255 end
              else (65 + (i mod 50) mod 26) land 255) in
     Bytes.set b i (Char.chr v)
